@@ -1818,9 +1818,18 @@ func patchCode(context *funcContext) { // {{{
 			moven = 0
 			continue
 		case OP_SETGLOBAL, OP_SETUPVAL, OP_EQ, OP_LT, OP_LE, OP_TEST,
-			OP_TAILCALL, OP_RETURN, OP_FORPREP, OP_FORLOOP, OP_TFORLOOP,
-			OP_SETLIST, OP_CLOSE:
+			OP_TAILCALL, OP_RETURN, OP_SETLIST, OP_CLOSE:
 			/* nothing to do */
+		case OP_FORPREP, OP_FORLOOP:
+			// the loop writes its control variable R(A+3)
+			if reg := opGetArgA(inst) + 3; reg > maxreg {
+				maxreg = reg
+			}
+		case OP_TFORLOOP:
+			// R(A+3) ... R(A+2+C) receive the iterator's results
+			if reg := opGetArgA(inst) + 2 + opGetArgC(inst); reg > maxreg {
+				maxreg = reg
+			}
 		case OP_CALL:
 			if reg := opGetArgA(inst) + opGetArgC(inst) - 2; reg > maxreg {
 				maxreg = reg
